@@ -39,10 +39,13 @@ def peers(tier):
         'header': dict(kex=['curve25519-sha256'], key=['ssh-ed25519'], enc=['aes256-ctr'], mac=['hmac-sha2-256'], banner=b'SSH-2.0-OpenSSH_9.6 comment', pre_banner=[b'Welcome', b'to this host']),
         'cert': dict(kex=['curve25519-sha256'], key=['ssh-rsa-cert-v01@openssh.com', 'ssh-ed25519'], enc=['aes256-ctr'], mac=['hmac-sha2-256'], banner=b'SSH-2.0-OpenSSH_9.6', rsa_bits=2048, ca='rsa', ca_bits=1024),
         'compress': dict(kex=['curve25519-sha256'], key=['ssh-ed25519'], enc=['aes256-ctr'], mac=['hmac-sha2-256'], banner=b'SSH-2.0-OpenSSH_9.6', comp=['none', 'zlib@openssh.com']),
+        'strict-kex-multi': dict(kex=['curve25519-sha256', 'kex-strict-s-v00@openssh.com'], key=['ssh-ed25519'],
+                                 enc=['chacha20-poly1305@openssh.com', 'aes128-cbc', 'aes192-cbc', 'aes256-cbc', '3des-cbc', 'aes256-ctr'],
+                                 mac=['hmac-sha2-256-etm@openssh.com', 'hmac-sha2-512-etm@openssh.com', 'umac-128-etm@openssh.com', 'hmac-sha1-etm@openssh.com'], banner=b'SSH-2.0-OpenSSH_9.6'),
         'nonascii-banner': dict(kex=['curve25519-sha256'], key=['ssh-ed25519'], enc=['aes256-ctr'], mac=['hmac-sha2-256'], banner=b'SSH-2.0-Frob\x80SSH'),
     }
     if tier == 'quick':
-        keep = ['clean', 'warn-only', 'fail-mixed', 'terrapin', 'unknown', 'gss', 'rsa2048', 'gex1024', 'ssh1', 'header', 'cert', 'nonascii-banner']
+        keep = ['clean', 'warn-only', 'fail-mixed', 'terrapin', 'unknown', 'gss', 'rsa2048', 'gex1024', 'ssh1', 'header', 'cert', 'nonascii-banner', 'strict-kex-multi']
         ps = {k: ps[k] for k in keep}
     else:
         # every severity mix of the database per category as extra peers
@@ -193,11 +196,11 @@ def hashseed_runs(tier, st):
     """Fresh interpreters with different hash seeds must give byte-identical output (also validates the in-process state reset)."""
     n = 0
     root = os.path.dirname(os.path.dirname(os.path.abspath(__file__)))
-    names = ['fail-mixed', 'terrapin', 'unknown', 'rsa2048', 'gss'] if tier != 'quick' else ['fail-mixed', 'unknown']
+    names = ['fail-mixed', 'terrapin', 'unknown', 'rsa2048', 'gss', 'strict-kex-multi', 'gex1024', 'cert', 'clean'] if tier != 'quick' else ['fail-mixed', 'unknown', 'strict-kex-multi']
     for pname in names:
         for opts in (['-n'], ['-j']):
             outs = {}
-            for seed in ('0', '1', '2', 'random'):
+            for seed in ('0', '1', '2', '3', 'random'):
                 env = dict(os.environ, PYTHONHASHSEED=seed)
                 p = subprocess.run(['/venv/bin/python', '-c', SUB % (root, pname, opts)], env=env, capture_output=True, text=True, timeout=120)
                 n += 1
